@@ -384,7 +384,7 @@ def run_job(job):
             p = os.path.join(nd, nm)
             with open(p, "w") as f:
                 f.write("y" * rng.choice([0, 1, 255, 4096, 65537]))
-            ts = base + rng.choice([0, 86399, 59 * 86400, 59 * 86400 + 86399, 365 * 86400 + 86399, 366 * 86400, 424242])
+            ts = base + rng.choice([0, 86399, 59 * 86400, 59 * 86400 + 86399, 365 * 86400 + 86399, 366 * 86400, 424242, 200 * 86400 + 82800, 200 * 86400 + 3600])
             os.utime(p, (ts, ts))
             names.append(nm)
         # names that carry a date (`year(name)` is the documentation's own example)
@@ -400,6 +400,9 @@ def run_job(job):
                 return None         # no date in the name: the value is not judged here
             dt = datetime.date(int(m.group(1)), int(m.group(2)), int(m.group(3)))
             return str({"year": dt.year, "month": dt.month, "day": dt.day, "dow": dt.isoweekday() % 7 + 1}[part])
+        # the date parts of `modified` are those of the local time: the column queries run under a time zone of their own,
+        # with entries from both halves of the year next to day and year edges
+        ctz = rng.choice(["UTC", "Europe/Berlin", "America/New_York", "Asia/Kolkata", "Pacific/Auckland"])
         colcases = [
             ("year(name)", lambda n, st: name_date(n, "year")), ("month(name)", lambda n, st: name_date(n, "month")),
             ("day(name)", lambda n, st: name_date(n, "day")), ("dow(name)", lambda n, st: name_date(n, "dow")),
@@ -410,17 +413,17 @@ def run_job(job):
             ("substr(name, 2, 2)", lambda n, st: n[1:3]), ("replace(name, 'a', 'A')", lambda n, st: n.replace("a", "A")),
             ("to_base64(name)", lambda n, st: base64.b64encode(n.encode()).decode()),
             ("from_base64(to_base64(name))", lambda n, st: n),
-            ("year(modified)", lambda n, st: str(datetime.datetime.utcfromtimestamp(st.st_mtime).year)),
-            ("month(modified)", lambda n, st: str(datetime.datetime.utcfromtimestamp(st.st_mtime).month)),
-            ("day(modified)", lambda n, st: str(datetime.datetime.utcfromtimestamp(st.st_mtime).day)),
-            ("dow(modified)", lambda n, st: str(datetime.datetime.utcfromtimestamp(st.st_mtime).isoweekday() % 7 + 1)),
+            ("year(modified)", lambda n, st: str(model.local_naive(st.st_mtime, ctz).year)),
+            ("month(modified)", lambda n, st: str(model.local_naive(st.st_mtime, ctz).month)),
+            ("day(modified)", lambda n, st: str(model.local_naive(st.st_mtime, ctz).day)),
+            ("dow(modified)", lambda n, st: str(model.local_naive(st.st_mtime, ctz).isoweekday() % 7 + 1)),
             ("coalesce(ext, name)", lambda n, st: model.ext_of(n) or n),
             ("length(trim(name))", lambda n, st: str(len(n.strip(" \t")))),
             ("sqrt(size)", lambda n, st: ("num", math.sqrt(st.st_size))), ("abs(size - 1000)", lambda n, st: ("num", abs(st.st_size - 1000.0))),
         ]
         for expr, ref in rng.sample(colcases, job["colcases"]):
             qy = "name, %s from n into list" % expr
-            r = runner.run([qy], cwd=w, home=home)
+            r = runner.run([qy], cwd=w, home=home, tz=ctz)
             res.ev()
             ctx = {"query": qy, "result": r.brief()}
             if r.verdict != "ok" or r.rc != 0 or r.err or r.panicked:
@@ -459,7 +462,7 @@ def run_job(job):
                         qw = "name from n where %s === %s into list" % (expr, q(val))
                     except ValueError:
                         continue
-                    rw = runner.run([qw], cwd=w, home=home)
+                    rw = runner.run([qw], cwd=w, home=home, tz=ctz)
                     res.ev()
                     if rw.verdict == "ok":
                         if rw.rc != 0 or rw.err or sorted(rw.rows()) != sorted(shown[val]):
